@@ -65,6 +65,17 @@ func body(phase string) nd.Body {
 
 var quickTier bool
 
+// leaveErrorCancel restricts the leave phase to a refused Leave with the
+// canceller thread present (the one slice of the leave phase with a canceller
+// that fits the quick tier).
+var leaveErrorCancel bool
+
+func leaveErrorCancelBody(c *nd.Ctx) nd.Result {
+	leaveErrorCancel = true
+	defer func() { leaveErrorCancel = false }()
+	return run(c, "leave")
+}
+
 func run(c *nd.Ctx, phase string) nd.Result {
 	// phase "join": every join answer, no leave; phase "leave": the join is
 	// answered by the self-presence and every leave answer is explored
@@ -109,7 +120,10 @@ func run(c *nd.Ctx, phase string) nd.Result {
 	// notification then shows up as a deadlock instead of hiding behind the
 	// cancellation
 	withCanceller := phase != "rooms" && c.Choose(2, "canceller") == 0
-	if quickTier && phase != "join" && withCanceller {
+	if leaveErrorCancel && (!withCanceller || lp != "error-reply" || ninv != 0) {
+		return nd.Result{Skip: true}
+	}
+	if quickTier && phase != "join" && withCanceller && !leaveErrorCancel {
 		// quick tier: the leave and rejoin phases are explored without the canceller thread
 		// (the interleaving space with it does not fit the quick budget)
 		return nd.Result{Skip: true}
@@ -521,6 +535,7 @@ func init() {
 			return []drv.Part{
 				{Name: "join", Desc: "every answer to the join, cancellation of the join, invitations", Body: body("join"), MaxDev: pre, ShardLevels: 3, Budget: b, Env: env},
 				{Name: "leave", Desc: "every answer to the leave after a successful join, cancellation of the leave", Body: body("leave"), MaxDev: pre, ShardLevels: 3, Budget: b, Env: env},
+				{Name: "leave-refused-cancelled", Desc: "a Leave that the room refuses while a canceller gives it up at any instant", Body: leaveErrorCancelBody, MaxDev: 1, ShardLevels: 3, Budget: b, Env: env},
 				{Name: "rooms", Desc: "two rooms on one client: joining a second room while presences of the first arrive (another occupant, being kicked), leaving the first while the second sends an unavailable presence", Body: body("rooms"), MaxDev: roomsPre, ShardLevels: 2, Budget: b, Env: env},
 				{Name: "kick", Desc: "removed by the room, rejoin (no / same / new nickname option), then leave (answered, unanswered+cancelled) or removed again followed by a late presence", Body: kickBody, MaxDev: 0, ShardLevels: 2, Budget: b, Env: env},
 				{Name: "leave-twice", Desc: "a refused or abandoned Leave followed by a Leave that the room grants", Body: leaveTwiceBody, MaxDev: 0, ShardLevels: 2, Budget: b, Env: env},
